@@ -89,6 +89,7 @@ partial def progOfJson (j : Json) : Except String Prog := do
   | "set" => do pure (.set (← val (← getStr j "v")))
   | "get" => pure .getMutate
   | "raise" => pure .raise
+  | "raiseBase" => pure .raiseBase
   | "block" => do
     let v ← val (← getStr j "v")
     let b ← progOfJson (← j.getObjVal? "body")
@@ -96,6 +97,9 @@ partial def progOfJson (j : Json) : Except String Prog := do
   | "catch" => do
     let b ← progOfJson (← j.getObjVal? "body")
     pure (.catch b)
+  | "catchAll" => do
+    let b ← progOfJson (← j.getObjVal? "body")
+    pure (.catchAll b)
   | _ => throw "bad prog"
 
 open MD.Cfg in
@@ -106,6 +110,7 @@ def backendStr : Backend → String
 open MD.Cfg in
 def outStr : Out → String
   | .ok => "ok" | .valueError => "ValueError" | .moduleNotFound => "ModuleNotFoundError" | .userExc => "UserExc"
+  | .baseExc => "BaseExc"
 
 def cellOfJson? (j : Json) : Option (Cell Rat) :=
   match j with
